@@ -101,12 +101,19 @@ structure State where
   checked    : List ReqId      -- remote: router checks passed, hand-over to the loop still to come
   result     : ReqId → Option Outcome
   executed   : List (ReqId × Outcome)   -- ghost: what the worker produced, in order
+  lost       : List ReqId               -- ghost: requests dropped silently by the caller's own stopping context
+
+/-- the requests whose send callbacks sit in an event-loop queue -/
+def reqsOf : List Cb → List ReqId
+  | [] => []
+  | .sendReq r :: q => r :: reqsOf q
+  | _ :: q => reqsOf q
 
 def init : State :=
   { registered := true, running := true, shutdown := false, phase := .idle, fifo := [],
     bRouter := true, bSock := .up, bQ := [], aRouter := true, aSock := .up, aQ := [], aStop := false,
     connA := true, connB := true, pendA := [], wireAB := [], wireBA := [],
-    issued := [], unsent := [], checked := [], result := fun _ => none, executed := [] }
+    issued := [], unsent := [], checked := [], result := fun _ => none, executed := [], lost := [] }
 
 /-- `QMI_RpcFuture._set_result`: only the first result sticks -/
 def setRes (f : ReqId → Option Outcome) (r : ReqId) (o : Outcome) : ReqId → Option Outcome :=
@@ -168,7 +175,7 @@ def step (s : State) : Act → Option State
   | .enq r =>
       -- _EventDrivenThread.run_in_thread_arg (a separate step: the router may be stopped in between)
       if r ∈ s.checked then
-        if s.aSock = .down then some { s with checked := s.checked.erase r }    -- thread finished: silently dropped
+        if s.aSock = .down then some { s with checked := s.checked.erase r, lost := r :: s.lost }   -- thread finished: silently dropped
         else some { s with checked := s.checked.erase r, aQ := s.aQ ++ [.sendReq r] }
       else none
   | .loopA =>
@@ -187,7 +194,9 @@ def step (s : State) : Act → Option State
       | .closeAll :: q =>
         some { s with aQ := q, connA := false, pendA := [], result := setAll s.result s.pendA .deliveryErr }
       | .stopLoop :: q => some { s with aQ := q, aSock := .stopping }
-  | .loopExitA => if s.aSock = .stopping then some { s with aSock := .down, aQ := [] } else none
+  | .loopExitA =>
+      -- callbacks still queued when the loop leaves run_forever() are never run
+      if s.aSock = .stopping then some { s with aSock := .down, aQ := [], lost := reqsOf s.aQ ++ s.lost } else none
   | .recvA =>
       if s.aSock = .down ∨ ¬ s.connA then none else
       match s.wireBA with
